@@ -88,6 +88,26 @@ def fmt_ops(ops):
     return " ".join(one(o) for o in ops)
 
 
+def categories(why):
+    """Signature categories of the judge's reasons (the reasons themselves go into the text):
+    members   - forward/backward iteration or empty() of a list disagrees with the membership
+    callbacks - the callbacks a signal call ran are not exactly its live connections in order
+    empty / left-fold / unregister - the other signal observables"""
+    cats = set()
+    for w in why:
+        if w.startswith(("forward", "backward")):
+            cats.add("members")
+        elif w.startswith(("called", "call-", "callback")):
+            cats.add("callbacks")
+        elif w.startswith("unregister"):
+            cats.add("unregister")
+        else:
+            cats.add(w)
+    if "members" in cats:
+        cats.discard("empty")
+    return sorted(cats)
+
+
 def judge_lines(ctx, lines, what, path):
     """Judge complete log lines with RingTrace; returns number of events judged."""
     if not lines:
@@ -108,7 +128,7 @@ def judge_lines(ctx, lines, what, path):
         items.append((len(ops), b, why, fl, ops))
     items.sort(key=lambda t: t[0])
     for n, b, why, fl, ops in items:
-        sig = "C11:%s:%s" % (b["op"], "+".join(why))
+        sig = "C11:%s:%s" % (b["op"], "+".join(categories(why)))
         ev = json.loads(lines[b["l"] - 1])
         ctx.reject(sig, "%s [%s]: the specification cannot explain what the lists/signals show after %s (%s); history: %s%s" % (
             what, fl, b["op"], ", ".join(why), fmt_ops(ops), ("; " + hint(fl, ops)) if hint(fl, ops) else ""),
@@ -245,15 +265,17 @@ def count_classes(ctx, lines):
         prev_sizes = tuple(sizes)
 
 
-def model_checks(ctx, thorough):
+def model_check_jobs(ctx, thorough):
+    """Thunks: the model checks of the specifications and the vacuity guards (run concurrently)."""
     cov = thorough
     runs = [("Membership", "MC_Membership.cfg"), ("Ring", "MC_Ring_big.cfg"),
             ("Ring", "MC_Ring_mut_list_move_ctor.cfg"), ("Signal", "MC_Signal.cfg")]
     if thorough:
         runs.append(("Ring", "MC_Ring_huge.cfg"))
         runs.append(("Signal", "MC_Signal_big.cfg"))
-    for mod, cfg in runs:
-        r = vlib.tlc_mc(ctx, mod, cfg, coverage=cov, timeout=3000)
+
+    def mc(mod, cfg):
+        r = vlib.tlc_mc(ctx, mod, cfg, workers=8, coverage=cov, timeout=3000)
         if cov:
             c = r.coverage()
             acts = [a for a in ("Next", "RNext", "SNext") if a in c]
@@ -261,11 +283,14 @@ def model_checks(ctx, thorough):
             if zero or not acts:
                 raise vlib.Infra("coverage: action(s) %s never taken in %s/%s" % (zero or "?", mod, cfg))
             ctx.extra.setdefault("action_coverage", {})[cfg] = {a: list(c[a]) for a in acts}
-    for mod, cfg, inv in GUARDS:
-        r = vlib.tlc(mod, cfg, workers=4)
+
+    def guard(mod, cfg, inv):
+        r = vlib.tlc(mod, cfg, workers=2)
         if inv not in r.invariant_violated:
             raise vlib.Infra("vacuity guard: %s/%s did not violate %s" % (mod, cfg, inv))
         ctx.extra.setdefault("vacuity_guards", []).append({"cfg": cfg, "violates": inv, "states": r.distinct})
+
+    return [(lambda m=m, c=c: mc(m, c)) for m, c in runs] + [(lambda m=m, c=c, i=i: guard(m, c, i)) for m, c, i in GUARDS]
 
 
 def emit_scripts(ctx, mod, cfg, minimum):
@@ -279,22 +304,34 @@ def emit_scripts(ctx, mod, cfg, minimum):
 
 def run(ctx):
     thorough = ctx.tier == "thorough"
-    # 1. the specifications themselves
-    model_checks(ctx, thorough)
-    # 2. operation scripts: one per generated transition of the complete state graph of the small
-    #    pointer-level model (lists) and of the signal model; every script three times so that the
-    #    harness finishes it with each of its three destruction orders (order = index mod 3)
-    small = emit_scripts(ctx, "Ring", "MC_RingScripts.cfg", 1000)
-    big = emit_scripts(ctx, "Ring", "MC_RingScripts_big.cfg", 20000)
-    if not thorough:
-        big = big[ctx.seed % 8::8]
-    sigs = emit_scripts(ctx, "Signal", "MC_SignalScripts.cfg", 1000)
+    # 1. the specifications themselves (model checks + vacuity guards), 2. operation scripts: one
+    #    per generated transition of the complete state graph of the small pointer-level model
+    #    (lists) and of the signal model, and the harness build - all concurrently
+    out = {}
+    jobs = model_check_jobs(ctx, thorough) + [
+        lambda: out.__setitem__("small", emit_scripts(ctx, "Ring", "MC_RingScripts.cfg", 1000)),
+        lambda: out.__setitem__("big", emit_scripts(ctx, "Ring", "MC_RingScripts_big.cfg", 20000)),
+        lambda: out.__setitem__("sigs", emit_scripts(ctx, "Signal", "MC_SignalScripts.cfg", 1000)),
+        lambda: out.__setitem__("binary", build()),
+    ]
+    vlib.parallel(lambda f: f(), jobs, workers=8)
+    ctx.mc_runs.sort(key=lambda r: (r["module"], r["cfg"]))
+    ctx.extra["vacuity_guards"].sort(key=lambda g: g["cfg"])
+    small, big, sigs, binary = out["small"], out["big"], out["sigs"], out["binary"]
+    # every script of the small list model three times so that the harness finishes it with each
+    # of its three destruction orders (order = script index mod 3)
     small.sort(key=len)
-    lscripts = [s for s in small for _ in range(3)] + big
-    sscripts = [s for s in sigs for _ in range(3)] if thorough else sigs
-    binary = build()
+    if thorough:
+        lscripts = [s for s in small for _ in range(3)] + big
+        jobs = [("list", lscripts)] + [(fl, [s for s in sigs for _ in range(3)]) for fl in SIG_FLAVOURS]
+    else:
+        # quick: all transitions of the 2x3 list model (x3 orders), every 16th of the 3x4 model, all
+        # transitions of the signal model on the plain int signal and a different quarter on each
+        # of the other flavours
+        lscripts = [s for s in small for _ in range(3)] + big[ctx.seed % 16::16]
+        jobs = [("list", lscripts), ("sig", sigs)] + [
+            (fl, sigs[(ctx.seed + k) % 4::4]) for k, fl in enumerate(SIG_FLAVOURS[1:])]
     # 3. spec -> code
-    jobs = [("list", lscripts)] + [(fl, sscripts) for fl in SIG_FLAVOURS]
     res = vlib.parallel(lambda j: run_replay(ctx, binary, j[0], j[1], "TLC-generated script", j[0]), jobs)
     lines = []
     for (fl, sc), (ls, done, aborts, rej) in zip(jobs, res):
@@ -306,30 +343,36 @@ def run(ctx):
     count_classes(ctx, lines)
     ctx.sample({"tlc_script": small[len(small) // 2]})
     ctx.sample({"tlc_signal_script": sigs[len(sigs) // 2]})
-    # 4. code -> spec: seeded random histories, in parallel ranges
-    nh, ml = (160000, 50) if thorough else (8000, 50)
+    # 4. code -> spec: seeded random histories, in rounds of 16 parallel ranges
+    rounds, per, ml = (10, 500, 50) if thorough else (1, 250, 50)
     nw = 16
-    per = nh // nw
-    res = vlib.parallel(lambda w: run_record(ctx, binary, w * per, per, ml, "w%d" % w), list(range(nw)))
-    lines = []
-    aborted = 0
-    for ls, done, aborts, rej in res:
-        lines += ls
-        apply_rejections(ctx, rej)
-        ctx.traces_validated += done
-        aborted += aborts
-    ctx.extra["recorded_histories"] = {"requested": nh, "run": sum(r[1] for r in res), "aborted": aborted}
-    judge_lines(ctx, lines, "random history (seed %d)" % ctx.seed, os.path.join(ctx.workdir, "recorded.ndjson"))
-    count_classes(ctx, lines[:400000])
-    evs = [json.loads(x) for x in lines[1:200] if x.startswith('{"e":"op"')]
-    if evs:
-        ctx.sample({"recorded_events": evs[len(evs) // 2:len(evs) // 2 + 2]})
+    stats = {"requested": rounds * nw * per, "run": 0, "aborted": 0}
+    for rd in range(rounds):
+        base = rd * nw * per
+        res = vlib.parallel(lambda w: run_record(ctx, binary, base + w * per, per, ml, "w%d" % w), list(range(nw)))
+        lines = []
+        for ls, done, aborts, rej in res:
+            lines += ls
+            apply_rejections(ctx, rej)
+            ctx.traces_validated += done
+            stats["run"] += done
+            stats["aborted"] += aborts
+        judge_lines(ctx, lines, "random history (seed %d)" % ctx.seed, os.path.join(ctx.workdir, "recorded.ndjson"))
+        if rd < 2:
+            count_classes(ctx, lines)
+        if rd == 0:
+            evs = [json.loads(x) for x in lines[1:200] if x.startswith('{"e":"op"')]
+            if evs:
+                ctx.sample({"recorded_events": evs[len(evs) // 2:len(evs) // 2 + 2]})
+        if stats["aborted"] >= 3 * nw * MAX_ABORTS_PER_WORKER:
+            break
+    ctx.extra["recorded_histories"] = stats
     ctx.rule = ("histories: (a) every generated transition of the complete state graph of the small TLC models (Ring 2 lists x 3 "
-                "elements, x3 destruction orders; Ring 3x4 %s; Signal 2x3 on all four signal flavours) as an op script, "
+                "elements, x3 destruction orders; Ring 3x4 %s; Signal 2x3 on the four signal flavours%s) as an op script, "
                 "(b) seeded random histories <= 50 ops over 3 lists/signals and 8 elements/connections, cycling through list / "
                 "signal flavours, everything destroyed in random order at the end; a class = (flavour, operation, "
                 "size bucket of the destination and of the source list/signal before the operation, any element alive) "
-                "of an executed event" % ("complete" if thorough else "every 8th transition"))
+                "of an executed event" % (("complete", " x3 destruction orders") if thorough else ("every 16th transition", ", a quarter each on three of them")))
     ctx.assumptions += [
         "writes through pointers to destroyed heads/elements are only OBSERVED via ASan in the harness (every node is a separate heap object), not decided by the TLA+ spec",
         "moving an object onto itself is not driven (the statement is silent); connections are not movable through the public API",
